@@ -17,9 +17,12 @@ ASSUMPTIONS = {
 }
 
 PROPS = {}
+NOT_CLAIMED = {}
 
 PROPS['C15'] = dict(
     level='proof',
+    claim='Task.wait and Pilot.wait: loop-exit obligations (awaited state or final state reached => the polling loop is left within one iteration), truthful return value, for every state argument shape and every forward-moving trajectory of the entity; all obligations discharged, no bound',
+    note='TaskManager.wait_tasks / PilotManager.wait_pilots not yet under contract',
     assumptions=['A2', 'A4', 'A8', 'A11'],
     explanation='wait calls: argument normalisation, loop-exit obligations '
                 '(awaited state reached / entity final => the polling loop is '
@@ -33,6 +36,7 @@ PROPS['C15'] = dict(
 
 PROPS['C06'] = dict(
     level='proof',
+    claim='every obligation generated from the contracts of states._task_state_progress, states._task_state_value, Task._update and TaskManager._update_tasks is discharged for all inputs and all batch lengths (loop invariants, no bound): forward-only single steps, sticky final states, no batch raises, unnamed tasks untouched, callbacks strictly increasing per task',
     assumptions=['A2', 'A4', 'A5', 'A7', 'A9', 'A10', 'A11'],
     trusted_base=['ru.dict_merge (radical.utils): assumed not to raise and to touch only _task_info'],
     explanation='state progression function (functional spec), Task._update '
@@ -43,3 +47,16 @@ PROPS['C06'] = dict(
              'final states never change': 'P',
              'contradictory notification does not stop the batch': 'P',
              'callback dispatch (_task_cb try/except around user callbacks)': 'A'})
+
+PROPS['C13'] = dict(
+    level='proof',
+    claim='TaskManager._pilot_state_cb (with Task._update by contract) verified for any number of tasks and notified pilots: exactly the non-final tasks bound to a final notified pilot become FAILED naming the pilot, everything else keeps its state',
+    assumptions=['A2', 'A4', 'A5', 'A7', 'A9', 'A10', 'A11'],
+    explanation='TaskManager._pilot_state_cb with Task._update by contract: for any '
+                'number of tasks and notified pilots, exactly the non-final tasks '
+                'bound to a final notified pilot become FAILED with an explanation '
+                'naming the pilot; final tasks keep their state; tasks of other '
+                'pilots and unbound tasks are untouched',
+    clauses={'own non-final tasks FAILED, pilot named': 'P',
+             'other pilots / unbound / final tasks keep state': 'P',
+             'callback registered for every added pilot (add_pilots)': 'A'})
